@@ -238,8 +238,9 @@ Reply(s, j) ==
     /\ LET e == up[s][j] IN Send(s, IF e.snet = 0 THEN "ls" ELSE "rs", e.snet, e.smac, FullHops, e.id)
 
 ----------------------------------------------------------------------------
-\* warm caches: every node knows, per attached network, the next hop towards every other network -- the router
-\* on that network that is strictly closer to the destination (in a tree: exactly what discovery teaches)
+\* warm caches: every node knows, on the attached network(s) nearest to the destination, the next hop towards
+\* every other network -- the router on that network that is strictly closer to the destination (in a tree:
+\* exactly what discovery teaches)
 RoutersOn(l) == {n \in Nodes : IsRouter(n) /\ l \in LansOf(n)}
 RECURSIVE Within(_, _)
 Within(d, k) == IF k = 0 THEN {d}
@@ -254,6 +255,7 @@ Warm(n) ==
            {<<Ad(n, i).net, d, MacOn(r, s)>> : <<d, r>> \in
                {x \in (Lans \ LansOf(n)) \X (RoutersOn(s) \ {n}) :
                    /\ Reachable(s, x[1]) /\ Via(x[2], s, x[1]) + 1 = LanDist(s, x[1])
+                   /\ \A l2 \in LansOf(n) : Reachable(l2, x[1]) => LanDist(s, x[1]) <= LanDist(l2, x[1])
                    /\ \A r2 \in RoutersOn(s) \ {n} : Via(r2, s, x[1]) + 1 = LanDist(s, x[1]) => x[2] <= r2}}
            : i \in 1..NAd(n)}
 
